@@ -162,6 +162,9 @@ struct P_C12c
             size_t N = in.text.size() + 1;
             if (N > MAXN || in.text.find('\0') != std::string::npos) continue;
             Expect e = expect_for(pr, in);
+            // the documented recovery algorithm makes no progress on some grammar/input pairs (the error symbol is shifted and reduced without a term being consumed,
+            // then the same error again): the reference's step guard recognises them; they are skipped here as in the other engines (DESIGN App. F.3)
+            if (e.rr.looped || e.rr.hit_rr) continue;
             Obs ref_obs = R::observe(in, false, 1, 1);
             bool has = false, threw = false, monitor = false; uint64_t value = 0; std::string exc, err;
             auto run = [&](auto ic)
